@@ -129,7 +129,10 @@ CLAIMED["C17"] = dict(
    note="PARTIAL: (3) holds for ALL states and merge flags but allows up to max(end, dst_final); C17_touches_only_range (3b) closes this for every "
         "state described by the C01 relation + GC precondition, with or without hint merge: nothing outside [dst0, end] is touched and the files "
         "strictly between dst0 and begin held no record before the pass (so the only earlier file with data that is written to is dst0, "
-        "appended to only -- C18_pass_layout). The request protocol model is abstract (tied to the code by the translated flag and the forced "
+        "appended to only -- C18_pass_layout). The GC precondition includes 'no record extends past DataFileMax'; it is necessary: "
+        "C17_oversize_record_refuted evaluates a reachable state (BodyMax above DataFileMax, one 1280-byte record in a 1024-byte file) on which a pass "
+        "over [1,2] appends to the head file 3 and creates files 4 and 5 -- the implementation does the same (open known finding F24, "
+        "corpus/C17/F24.json, oracle kind gc-oversize-spill). The request protocol model is abstract (tied to the code by the translated flag and the forced "
         "schedule, not by trace replay). Trusted: Coq kernel, translator, harness incl. verifPoint parking, python oracle. No axioms.",
    technique="Rocq proof of range soundness, touched-file set and mutual exclusion over all schedules of a protocol model; refutation witness; differential correspondence + forced schedules",
    design="6/C17")
@@ -253,7 +256,10 @@ CLAIMED["C03"] = dict(
         "index files removed) and GC passes (any range, either merge flag) at ANY positions answer as the reference map (proofs/GcX1..GcX6.v, "
         "about 1900 lines). PARTIAL: colliding keys and check_vhash=on are covered by correspondence + oracle only; each GC request must meet a "
         "state with its range below the head file, no record past DataFileMax and at least one hint file written since creation (side "
-        "condition [ready], state-dependent like the range itself; a computable version is used for the non-vacuity example). Trusted: Coq "
+        "condition [ready], state-dependent like the range itself; a computable version is used for the non-vacuity example). 'No record past "
+        "DataFileMax' is necessary: with BodyMax above DataFileMax the real pass fills files above the head file and a later client write that "
+        "rotates into one of them ends the process (open known finding F24, replayed each run from findings/F24_abort.json in its own process; the "
+        "generator stops writing to a store in that state). Trusted: Coq "
         "kernel, translator (flags gc_repoint_conditional, gc_truncates_after_inplace), harness, python oracle. No axioms.",
    technique="Rocq loop-invariant proofs: a GC pass preserves the refinement relation AND re-establishes the restart invariant (all states, ranges, merge flags); history theorem over client operations, restarts and passes; differential correspondence on GC histories incl. directory contents",
    design="6/C03")
